@@ -11,7 +11,8 @@
 (*             leth  (see Probe.tla)                                       *)
 (*   ver       legacy, major, minor, patch, labels, name, bufsize, date,   *)
 (*             pcpu (18 physical core numbers), nul                        *)
-(*   vbase     address of the per-core status blocks, iobuf_size           *)
+(*   chips[i].vbase  address of that chip's per-core status blocks;       *)
+(*   iobuf_size                                                           *)
 (*   vcpus     planted status blocks   [x, y, p, bytes]                    *)
 (*   blocks    planted console blocks  [x, y, addr, next, time, ms, len,   *)
 (*             data]                                                       *)
@@ -60,8 +61,8 @@ NoDup(q) == Cardinality(SeqSet(q)) = Len(q)
 \* ------------------------------------------------------------------ the environment
 Regions(x, y) ==
     { <<SvP2PDims, LE2(Tr.w * 256 + Tr.h)>>, <<SvIobufSz, HalvesToBytes(<<0, Tr.iobuf_size>>)>>,
-      <<SvVcpuBase, HalvesToBytes(Tr.vbase)>> }
-    \cup { <<VcpuAddr(Tr.vbase, v.p), v.bytes>> : v \in { u \in SeqSet(Tr.vcpus) : u.x = x /\ u.y = y } }
+      <<SvVcpuBase, HalvesToBytes(Tr.chips[GridCode(x, y)].vbase)>> }
+    \cup { <<VcpuAddr(Tr.chips[GridCode(x, y)].vbase, v.p), v.bytes>> : v \in { u \in SeqSet(Tr.vcpus) : u.x = x /\ u.y = y } }
     \cup { <<blk.addr, BlockBytes(blk)>> : blk \in { u \in SeqSet(Tr.blocks) : u.x = x /\ u.y = y } }
     \cup { <<RtrDiag, CounterBytes(d.words)>> : d \in { u \in SeqSet(Tr.diags) : u.x = x /\ u.y = y } }
 P2POK(x, y, po, data) ==
@@ -79,6 +80,10 @@ MemOK(x, y, addr, data) ==
     ELSE \E rg \in Regions(x, y) :
             LET o == OffH(addr, rg[1])
             IN o >= 0 /\ o + Len(data) <= Len(rg[2]) /\ data = SubSeq(rg[2], o + 1, o + Len(data))
+Defined(x, y, addr, n) ==
+    LET po == OffH(addr, RtrP2P) IN
+    \/ po >= 0 /\ po < 32768
+    \/ \E rg \in Regions(x, y) : LET o == OffH(addr, rg[1]) IN o >= 0 /\ o + n <= Len(rg[2])
 EnvChecks(e) ==
     LET cmd == e[2]  x == e[3]  y == e[4]  p == e[5]  rc == e[9]  ra == e[10]  rd == e[11]
         code == GridCode(x, y)
@@ -91,6 +96,11 @@ EnvChecks(e) ==
                        /\ rd = EncodeInfoData(st.desc[<<x, y>>])
                        /\ ra[1] = WithJunk(EncodeInfoArg1(st.desc[<<x, y>>]), <<ra[1][1] \div 1024, (ra[1][2] \div 32) % 8>>)]
               [] cmd = 2 ->
+                   \* a read outside everything the machine defines for probing (system variables, P2P table,
+                   \* this chip's status blocks, console blocks, router counters) is the reader's error, not
+                   \* the environment's: e.g. another chip's status-block address used on this chip
+                   IF ~Defined(x, y, e[6], e[7][2]) THEN [ReadsOnlyDefinedMemory |-> FALSE]
+                   ELSE
                    [EnvReadIsMemory |-> /\ rc = <<128>> /\ ra = <<>> /\ e[7][1] = 0 /\ Len(rd) = e[7][2]
                                         /\ MemOK(x, y, e[6], rd)]
               [] cmd = 0 ->
